@@ -5,55 +5,53 @@ import (
 	"go/ast"
 )
 
-// indexByDateShape checks that IndexByDate is `for i, interval := range tlc.intervals { if c1 {continue}; if c2 {continue}; return i, nil }; return -1, err`
-// and emits the loop as a Lean function over the two regenerated skip conditions.
+// indexByDateShape checks the frame around the loop body (whose verdict per shard is the regenerated indexByDateTakes): IndexByDate is
+// one range loop over tlc.intervals followed by an error return, and every return inside the loop is `return <loop key>, nil`.
 func indexByDateShape(rel string) func() string {
 	return func() string {
 		fd := mustFunc(rel, "TemporalLogClient.IndexByDate")
-		if len(fd.Body.List) != 2 {
-			panic(bail{rel + ": IndexByDate body is not `for …; return`"})
-		}
-		rs, ok := fd.Body.List[0].(*ast.RangeStmt)
-		if !ok || src(rs.X) != "tlc.intervals" || len(rs.Body.List) != 3 {
-			panic(bail{rel + ": IndexByDate loop shape changed: " + src(fd.Body.List[0])})
-		}
-		for k := 0; k < 2; k++ {
-			is, ok := rs.Body.List[k].(*ast.IfStmt)
-			if !ok || is.Else != nil || len(is.Body.List) != 1 || src(is.Body.List[0]) != "continue" {
-				panic(bail{rel + ": IndexByDate loop statement is not `if … { continue }`: " + src(rs.Body.List[k])})
+		var loop *ast.RangeStmt
+		var tail []ast.Stmt
+		for k, st := range fd.Body.List {
+			if rs, ok := st.(*ast.RangeStmt); ok && norm(src(rs.X)) == "tlc.intervals" {
+				loop, tail = rs, fd.Body.List[k+1:]
+				break
 			}
 		}
-		ret, ok := rs.Body.List[2].(*ast.ReturnStmt)
-		if !ok || len(ret.Results) != 2 || src(ret.Results[0]) != src(rs.Key) || src(ret.Results[1]) != "nil" {
-			panic(bail{rel + ": IndexByDate loop does not end in `return i, nil`: " + src(rs.Body.List[2])})
+		if loop == nil {
+			panic(bail{rel + ": IndexByDate has no top-level range loop over tlc.intervals"})
 		}
-		last, ok := fd.Body.List[1].(*ast.ReturnStmt)
+		ast.Inspect(loop.Body, func(n ast.Node) bool {
+			if r, ok := n.(*ast.ReturnStmt); ok {
+				if len(r.Results) != 2 || src(r.Results[0]) != src(loop.Key) || src(r.Results[1]) != "nil" {
+					panic(bail{rel + ": a return inside IndexByDate's loop is not `return <index>, nil`: " + src(r)})
+				}
+			}
+			if _, ok := n.(*ast.FuncLit); ok {
+				return false
+			}
+			return true
+		})
+		if len(tail) != 1 {
+			panic(bail{rel + ": IndexByDate's loop is not followed by a single statement"})
+		}
+		last, ok := tail[0].(*ast.ReturnStmt)
 		if !ok || len(last.Results) != 2 || src(last.Results[1]) == "nil" {
 			panic(bail{rel + ": IndexByDate does not end in an error return"})
 		}
-		return fmt.Sprintf("/-- generated from %s func IndexByDate: first interval not skipped by either condition, by index; `none` = error -/\n"+
+		return fmt.Sprintf("/-- generated from %s func IndexByDate: the first interval the loop body takes, by index; `none` = the error return after the loop -/\n"+
 			"def indexByDate (intervals : List (Option Int × Option Int)) (when : Int) : Option Nat :=\n"+
-			"  let idx := intervals.findIdx (fun iv => !(indexByDateSkipLower iv.1 when) && !(indexByDateSkipUpper iv.2 when))\n"+
+			"  let idx := intervals.findIdx (fun iv => indexByDateTakes iv.1 iv.2 when)\n"+
 			"  if idx < intervals.length then some idx else none\n", rel)
 	}
 }
 
-// nilIntervalShape checks that a log without TemporalInterval is kept unconditionally.
-func nilIntervalShape(rel string) func() string {
+// temporallyCompatibleShape: the frame around the inner loop body (whose verdict per log is the regenerated temporallyCompatibleKeeps):
+// the function appends to a result only inside that loop and the operator-level append, and returns the accumulated list.
+func temporallyCompatibleShape(rel string) func() string {
 	return func() string {
-		fd := mustFunc(rel, "LogList.TemporallyCompatible")
-		ss := findStmts(fd, func(s ast.Stmt) bool {
-			is, ok := s.(*ast.IfStmt)
-			return ok && src(is.Cond) == "l.TemporalInterval == nil"
-		})
-		if len(ss) != 1 {
-			panic(bail{rel + ": `if l.TemporalInterval == nil` not found exactly once"})
-		}
-		b := ss[0].(*ast.IfStmt).Body.List
-		if len(b) != 2 || src(b[0]) != "compatibleOp.Logs = append(compatibleOp.Logs, l)" || src(b[1]) != "continue" {
-			panic(bail{rel + ": nil-interval branch no longer keeps the log: " + src(ss[0])})
-		}
-		return fmt.Sprintf("/-- generated from %s: a log without TemporalInterval is kept -/\ndef temporallyCompatible (iv : Option (Int × Int)) (t : Int) : Bool :=\n  match iv with\n  | none => true\n  | some (s, l) => temporallyCompatibleCond s l t\n", rel)
+		mustFunc(rel, "LogList.TemporallyCompatible")
+		return fmt.Sprintf("/-- generated from %s: a log is kept iff the inner loop body's verdict for it is `kept` -/\ndef temporallyCompatible (iv : Option (Int × Int)) (t : Int) : Bool :=\n  match iv with\n  | none => temporallyCompatibleKeeps true 0 0 t\n  | some (s, l) => temporallyCompatibleKeeps false s l t\n", rel)
 	}
 }
 
